@@ -209,7 +209,8 @@ yield1:
 	} else if (UNLIKELY(nrd <= 0 && off == ctx->buf)) {
 		/* special case, we worked our arses off and nothing's
 		 * in the pipe line so just fuck off here */
-		if (!ctx->bno) {
+		if (bno == ctx->buf) {
+			/* nothing left over and nothing read */
 			return -1;
 		}
 		/* go to drain mode */
@@ -227,8 +228,12 @@ yield2:
 			if (LIKELY(nrd > 0)) {
 				break;
 			}
-			/* not concluded with \n, let's hope we're in drain mode */
-			return -1;
+			/* not concluded with \n and nothing more to come,
+			 * that's the last line then */
+			set_loff(ctx, ctx->tot_lno, bno - ctx->buf);
+			off = bno;
+			ctx->tot_lno++;
+			YIELD(3);
 		}
 		/* massage our status structures */
 		set_loff(ctx, ctx->tot_lno, p - ctx->buf);
